@@ -290,6 +290,47 @@ func (c *Ctx) dhConstantsImmutableRule(r *Report, rule string) {
 		g, ok := v.(*ssa.Global)
 		return ok && isDH[g]
 	}})
+	// inside the init functions (the existing one, or one in a file added later that runs after it): a math/big
+	// method that writes its receiver has a number made on the spot as receiver, never one taken out of a descriptor
+	for _, fn := range c.ModFuncs {
+		if !isInitFunc(fn) || fn.Pkg != dhPkg {
+			continue
+		}
+		for _, b := range fn.Blocks {
+			for _, ins := range b.Instrs {
+				call, ok := ins.(*ssa.Call)
+				if !ok || call.Call.IsInvoke() || len(call.Call.Args) == 0 {
+					continue
+				}
+				cal := call.Call.StaticCallee()
+				if cal == nil || !strings.HasPrefix(cal.String(), "(*math/big.Int).") {
+					continue
+				}
+				res := cal.Signature.Results()
+				if res.Len() == 0 || !strings.HasSuffix(res.At(0).Type().String(), "big.Int") {
+					continue
+				}
+				recv := call.Call.Args[0]
+				fresh := false
+				for i := 0; i < 4; i++ {
+					if _, ok := recv.(*ssa.Alloc); ok {
+						fresh = true
+						break
+					}
+					// z.SetString(...) yields (z, ok); x.Op(...) yields x
+					if ex, ok := recv.(*ssa.Extract); ok {
+						recv = ex.Tuple
+					}
+					inner, ok := recv.(*ssa.Call)
+					if !ok || inner.Call.StaticCallee() == nil || !strings.HasPrefix(inner.Call.StaticCallee().String(), "(*math/big.Int).") || len(inner.Call.Args) == 0 {
+						break
+					}
+					recv = inner.Call.Args[0]
+				}
+				r.Check(fresh, rule, c.FuncName(fn)+": "+c.SrcExpr(call), c.InstrPos(call), "the receiver is a number made on the spot", "a math/big method that writes its receiver is applied in init to a number that is not made on the spot (one taken from a registered group descriptor is overwritten: the prime every exchange uses is no longer the constant that was checked)")
+			}
+		}
+	}
 	var bad []string
 	for _, w := range ar.WritesThrough {
 		bad = append(bad, c.FuncName(w.Fn)+": "+w.What+" at "+c.InstrPos(w.Ins)+" ["+c.SrcExpr(w.Ins)+"]")
@@ -458,11 +499,26 @@ func (c *Ctx) randomNumberRules(r *Report, prefix string) {
 			}
 		}
 	}
-	if rcall == nil || maxG == nil || minG == nil {
-		r.bad(rule, "security.GenerateRandomNumber: source", c.Pos(gn.Pos()), "no call to crypto/rand.Int, or the bounds are not package variables")
+	if rcall == nil {
+		r.bad(rule, "security.GenerateRandomNumber: source", c.Pos(gn.Pos()), "no call to crypto/rand.Int")
 		return
 	}
-	srcOK := rcall.Call.Args[1] == ssa.Value(maxG)
+	// the bounds: the two package variables set in init (checked below), or - when they are computed, per call or
+	// at declaration - numbers the checker evaluates from the constants (new(big.Int).Lsh(NewInt(1), n) - 1, ...)
+	wantMax := new(big.Int).Sub(new(big.Int).Lsh(big.NewInt(1), 2048), big.NewInt(1))
+	wantMin := new(big.Int).Sub(new(big.Int).Lsh(big.NewInt(1), 128), big.NewInt(1))
+	computed := false
+	isBound := func(v ssa.Value, g *ssa.Global, want *big.Int, at ssa.Instruction) bool {
+		if g != nil && v == ssa.Value(g) {
+			return true
+		}
+		if got, ok := c.evalBig(gn, v, at, 0); ok && got.Cmp(want) == 0 {
+			computed = true
+			return true
+		}
+		return false
+	}
+	srcOK := isBound(rcall.Call.Args[1], maxG, wantMax, rcall)
 	if mi, ok := rcall.Call.Args[0].(*ssa.MakeInterface); ok {
 		if u, ok := mi.X.(*ssa.UnOp); ok {
 			if g, ok := u.X.(*ssa.Global); !ok || g.Pkg.Pkg.Path() != "crypto/rand" || g.Name() != "Reader" {
@@ -530,7 +586,7 @@ func (c *Ctx) randomNumberRules(r *Report, prefix string) {
 				}
 			}
 		}
-		return any && only1 && cmp.Call.Args[0] == num && cmp.Call.Args[1] == ssa.Value(minG)
+		return any && only1 && cmp.Call.Args[0] == num && isBound(cmp.Call.Args[1], minG, wantMin, cmp)
 	}
 	// nonNilEdge: the edge pb -> x is taken only when v was not nil
 	nonNilEdge := func(v ssa.Value) func(pb, x *ssa.BasicBlock) bool {
@@ -685,6 +741,11 @@ func (c *Ctx) randomNumberRules(r *Report, prefix string) {
 		reps int64
 		what string
 	}{{maxG, 512, "2^2048-1"}, {minG, 32, "2^128-1"}} {
+		if bd.g == nil || computed {
+			// computed bounds: their values were evaluated where they are used
+			r.Check(computed, rule, "security."+map[int64]string{512: "randomNumberMaximum", 32: "randomNumberMinimum"}[bd.reps]+" = "+bd.what, c.Pos(gn.Pos()), "the bound used evaluates to "+bd.what+" (constant propagation over the math/big operations that build it)", "the bound is neither a package variable set in init nor a number that evaluates to "+bd.what)
+			continue
+		}
 		okC, n := false, 0
 		for _, fn := range c.ModFuncs {
 			for _, b := range fn.Blocks {
